@@ -84,7 +84,7 @@ def interval_problem(iv):
         loc = iv.chunk_relative_location
     except Exception as e:  # noqa: BLE001
         return f"cannot read chunk_relative_location: {e!r}"
-    if isinstance(iv, AnnotationCollection) and LM.is_empty_singleton(loc) and not hasattr(iv, "start"):
+    if isinstance(iv, AnnotationCollection) and LM.is_empty_singleton(loc) and getattr(iv, "start", None) is None:
         return None  # the documented empty, unbounded collection
     try:
         s, e = iv.start, iv.end
@@ -131,6 +131,13 @@ def interval_problem(iv):
         if len({k.guid for k in kids}) != len(kids):
             return "duplicate children"
     return None
+
+
+def safe_repr(x, n=200):
+    try:
+        return repr(x)[:n]
+    except Exception as e:  # noqa: BLE001 - an ill-formed object may not even print
+        return f"<{type(x).__name__}: repr raised {type(e).__name__}>"
 
 
 def value_problem(x, depth=0):
